@@ -323,6 +323,8 @@ class ParseNeighbor(Section):
         happen once the new configuration is accepted: done while parsing, a reload which failed
         further down the file had already announced the routes of the refused file.
         """
+        for neighbor in self.neighbors.values():
+            neighbor.rib.commit()
         for neighbor, route in self._rib_seed:
             neighbor.rib.outgoing.add_to_rib_watchdog(route)
         self._rib_seed = []
@@ -645,7 +647,8 @@ class ParseNeighbor(Section):
                 m_neighbor.rib.outgoing.families = {family}
                 self._init_neighbor(m_neighbor, local)
         else:
-            neighbor.make_rib()
+            # the RIB is shared with the running session: nothing of it changes before the file is accepted
+            neighbor.make_rib(defer=True)
             self._init_neighbor(neighbor, local)
 
         local.clear()
